@@ -15,7 +15,7 @@ import (
 	"verif/harness/internal/ref/txref"
 )
 
-const ruleC33 = "a publisher chain of 3-10 blocks (built by injecting valid spends and publishing at generated times) and a delivery plan of 2-14 GiveBlocks messages for a fresh receiving node (an ordinary follower, or 1 in 3 a node in publisher mode on the same chain): each message carries 1-5 blocks in ascending order taken from the publisher chain with generated gaps, overlaps, duplicates of earlier messages and omissions, the message order is a generated permutation, and forged blocks are interleaved (unsigned, signed by another key, publisher-signed fork from an earlier head, re-signed header mutation by another key, body swapped under a genuine header); messages are processed by the real GiveBlocksMessage.process on a recording daemon over a real visor; afterwards an honest peer answers the follower's recorded GetBlocks requests from the set of blocks that were given; oracle: after every message the follower's chain equals the sequential reference model and is a prefix of the publisher's chain block for block, every stored block verifies under the publisher key, whenever blocks were added an AnnounceBlocks(head) and a GetBlocks(head, n) were emitted, and after the honest answers the follower holds exactly the longest gap-free prefix of the given blocks; non-trivial = the plan delivers out of order across messages or contains a forged block, and the follower ends above genesis; distinct by plan"
+const ruleC33 = "a publisher chain of 3-10 blocks (built by injecting valid spends and publishing at generated times) and a delivery plan of 2-14 GiveBlocks messages for a fresh receiving node (an ordinary follower, or 1 in 3 a node in publisher mode on the same chain): each message carries 1-5 blocks in ascending order taken from the publisher chain with generated gaps, overlaps, duplicates of earlier messages and omissions, the message order is a generated permutation, and forged blocks are interleaved (unsigned, signed by another key, publisher-signed fork from an earlier head, re-signed header mutation by another key, body swapped under a genuine header); messages are processed by the real GiveBlocksMessage.process on a recording daemon over a real visor; afterwards an honest peer answers the follower's recorded GetBlocks requests from the set of blocks that were given; oracle: after every message the follower's chain equals the sequential reference model and is a prefix of the publisher's chain block for block, every stored block verifies under the publisher key, whenever blocks were added an AnnounceBlocks(head) and a GetBlocks(head, n) were emitted, and after the honest answers the follower holds exactly the longest gap-free prefix of the given blocks; finally announcements of blocks 0, head, head+1, head+2, head+k and 2^64-1 arrive: a request for the blocks after the head is sent exactly when the announced block is above the head; non-trivial = the plan delivers out of order across messages or contains a forged block, and the follower ends above genesis; distinct by plan"
 
 func TestC33_Sync(t *testing.T) {
 	r := ev.Get("C33")
@@ -233,6 +233,33 @@ func TestC33_Sync(t *testing.T) {
 		}
 		if int(fol.m.Head().Head.BkSeq) < prefix {
 			t.Fatalf("follower stopped at %d although blocks 1..%d were given and re-offered\n plan: %v", fol.m.Head().Head.BkSeq, prefix, log)
+		}
+		// announcements: a peer that says it has blocks above the node's head is asked for them - also when it is only one
+		// block ahead; a peer that has nothing new is not
+		{
+			head := fol.m.Head().Head.BkSeq
+			for _, ann := range []uint64{0, head, head + 1, head + 2, head + uint64(rapid.IntRange(3, 500).Draw(t, "ahead")), ^uint64(0)} {
+				if ann < head && ann != 0 {
+					continue
+				}
+				d.Sent = nil
+				if p := call(func() { daemon.VerifProcess(d, &daemon.AnnounceBlocksMessage{MaxBkSeq: ann}, "10.1.1.1:6000", 1) }); p != nil {
+					t.Fatalf("AnnounceBlocksMessage.process panicked: %v", p)
+				}
+				asked := false
+				for _, snt := range d.Sent {
+					if g, ok := snt.Msg.(*daemon.GetBlocksMessage); ok {
+						if g.LastBlock != head || g.RequestedBlocks != dc.GetBlocksRequestCount {
+							t.Fatalf("after an announcement of block %d the node (head %d) asks for blocks after %d, count %d; want after %d, count %d", ann, head, g.LastBlock, g.RequestedBlocks, head, dc.GetBlocksRequestCount)
+						}
+						asked = true
+					}
+				}
+				if asked != (ann > head) {
+					t.Fatalf("a peer announces block %d to a node whose head is %d: request for blocks sent = %v, want %v\n plan: %v", ann, head, asked, ann > head, log)
+				}
+				r.Count("announcements_checked")
+			}
 		}
 		w.checkNode(t, fol, "sync plan")
 		nt := (outOfOrder || forged) && fol.m.Head().Head.BkSeq > 0
